@@ -31,13 +31,13 @@ type c19Meta struct {
 	Trunc    int               `json:"trunc"`
 }
 
-var c19Cells = []string{"", "a", "b c", "x,y", "q\"q", "é", "日本", "tab\tin", "colon:in", "007", "-1.5", "true", "null", "  pad  ", "long-long-long-long-value"}
+var c19Cells = []string{"", "a", "b c", "x,y", "q\"q", "é", "日本", "tab\tin", "colon:in", "007", "-1.5", "true", "null", "  pad  ", "long-long-long-long-value", "cr\r", "a\r\nb", "nl\n", "\r", "q\"\r"}
 
 func c19Content(format string, rows int, r *Rng, lb string) string {
 	var b strings.Builder
 	cell := func() string { return c19Cells[r.Intn(len(c19Cells))] }
 	plain := func() string {
-		return strings.NewReplacer(",", "_", "\"", "_", "\t", "_", ":", "_", " ", "_").Replace(cell())
+		return strings.NewReplacer(",", "_", "\"", "_", "\t", "_", ":", "_", " ", "_", "\r", "_", "\n", "_").Replace(cell())
 	}
 	switch format {
 	case "csv", "tsv":
@@ -53,7 +53,7 @@ func c19Content(format string, rows int, r *Rng, lb string) string {
 				if format == "tsv" {
 					c = strings.ReplaceAll(c, "\t", " ")
 				}
-				if strings.ContainsAny(c, ",\"\t\n") || r.Bool(0.1) {
+				if strings.ContainsAny(c, ",\"\t\n\r") || r.Bool(0.1) {
 					c = "\"" + strings.ReplaceAll(c, "\"", "\"\"") + "\""
 				}
 				f = append(f, c)
@@ -173,6 +173,10 @@ func (c19) Gen(seed uint64, tier string) *Scenario {
 	sc := &Scenario{Prop: "C19"}
 	src := "STDIN"
 	ps := ProcSpec{CPU: r.Pick(1, 1, 2, 4), WaitTimeoutS: 0.3000001, RetryDelayNs: 10001009, Quiet: true, Format: "CSV", Shell: true}
+	if r.Bool(0.4) {
+		// every encoder sees the loaded bytes, not only the CSV one
+		ps.Format = r.PickS("TEXT", "BOX", "JSON", "JSONL", "LTSV", "GFM", "ORG", "FIXED", "TSV")
+	}
 	m.Flags["IMPORT_FORMAT"] = declared
 	if m.Source == "stdin" {
 		ps.HasStdin = true
